@@ -85,7 +85,7 @@ CLAIMED = {
    ref="DESIGN.md §4 C17"),
  "C20": dict(
    technique="bounded explicit-state model checking: exhaustive enumeration of (week, ns-of-week, scale) boundary products, of the non-negative epoch lattice, of u64 counter lattices and of (year, day-of-year, fraction, scale) products through the real constructors/accessors, judged by integer division and civil arithmetic",
-   text="from_time_of_week over 15 weeks x 11 nanosecond values x 9 scales (incl. non-canonical and saturating inputs) and back; to_time_of_week on every non-negative lattice epoch in 9 scales must return the unique pair with ns < 604 800 s and rebuild the epoch; the four u64 counters are constructed and read back on 16 boundary values and read from every lattice epoch in 7 scales (Err required outside [0, one century)); from_day_of_year -> (year, day_of_year) for every day of 13 years (quick) / ~60 days of every year 0001-9999 (thorough) x 4 fractions x 9 scales.",
+   text="from_time_of_week over the week and nanosecond-of-week lattices x 9 scales (incl. non-canonical and saturating inputs) and back; to_time_of_week on every non-negative lattice epoch in 9 scales must return the unique pair with ns < 604 800 s and rebuild the epoch; the four u64 counters are constructed and read back on 16 boundary values and read from every lattice epoch in 7 scales (Err required outside [0, one century)); from_day_of_year -> (year, day_of_year) for every day of 13 years (quick) / ~60 days of every year 0001-9999 (thorough) x 4 fractions x 9 scales.",
    note="Negative counts are outside to_time_of_week's quantifier (counted don't-cares).",
    ref="DESIGN.md §4 C20"),
  "C18": dict(
@@ -149,6 +149,12 @@ AUDIT2 = {
 for _k, _v in {"C05": " c05.float_ctor: from_<scale>_seconds/_days of the six scales on a 76-value float lattice; to_tai_parts / from_tai_parts / to_duration_since_j1900 on every lattice point.",
                "C06": " c06.float_ctor: from_utc_seconds/_days; from_utc_duration builds every other UTC epoch.",
                "C07": " c07.float_ctor: from_et_seconds / from_tdb_seconds; the days/centuries-since-J2000 accessors are compared with the duration accessors."}.items():
+    AUDIT2[_k] = AUDIT2.get(_k, "") + _v
+# round 7 (DESIGN.md §6.2 seventh round, §6.6)
+for _k, _v in {"C01": " c01.raw_operand: operands in the raw forms the constructor accepts (every century anchor x a nanosecond part of 0..5 whole centuries and the top of the u64 range) through twelve operations (round 7).",
+               "C03": " c03.derived also takes its operands from the saturated bounds (MAX - a, (MAX + 1 day) - a, MIN + a, ...) and whole-century steps (round 7).",
+               "C11": " The Epoch time-of-day accessors are compared with the decomposition from the reference epoch onward only (before it the statement, which is about durations, does not decide between the two readings; round 7).",
+               "C20": " from_time_of_week: every week 0..=8192 (thorough 131 072), a geometric scan of the rest, every day boundary and every hour of the first day of the week (round 7)."}.items():
     AUDIT2[_k] = AUDIT2.get(_k, "") + _v
 # order independence (DESIGN.md §1 Mode A')
 for _k in ["C%02d" % i for i in range(1, 21)]:
